@@ -11,7 +11,7 @@ if [ ! -d $WT ]; then git -C /repo worktree add --detach $WT $BASE >/dev/null 2>
 cd $WT && git checkout -q -- . && git clean -fdq -e target
 # round-1 seeds were written against the pinned snapshot, later rounds against the repaired tree: use the newest base the patch applies to
 USED=""
-case "$NAME" in *-a|*-b) ORDER="$BASE $(git -C /repo rev-parse main)";; *) ORDER="$(git -C /repo rev-parse main) $BASE";; esac
+case "$NAME" in C01-*|C06-*|C14-*) ORDER="$(git -C /repo rev-parse main) $BASE";; *-a|*-b) ORDER="$BASE $(git -C /repo rev-parse main)";; *) ORDER="$(git -C /repo rev-parse main) $BASE";; esac
 for B in $ORDER; do
   git checkout -q --detach $B
   if git apply --check $SD/patch.diff 2>/dev/null; then USED=$B; break; fi
